@@ -5,6 +5,8 @@
      world   c:P:BYTES:MT:INO   create P (INO = canonical number of the inode the kernel allocated, "-" = the
                                 create failed)     w:P:BYTES:MT  rewrite in place     a:P:BYTES:MT  append
              t:P:N:MT  truncate/extend   u:P:MT  utimensat   r:P:Q  rename   d:P  unlink   l:P:Q  hard link
+             m:P:MT:INO:LEN  mkdir P (an inode of LEN bytes whose every read fails: calls on P get c_fail = true;
+                             the generator never renames / removes / rewrites it)
      cache   O:A:TR  HashCache::open(tree of algorithm A, transform TR | "-")   C  close
              P:P:POS:LEN:DL:HASHBYTES  put        G:P:POS:LEN  get
              HO:A:TR FileHasher::new_cached       HC drop
@@ -86,7 +88,7 @@ let () = iter_lines (fun line ->
     let w = ref empty_world and c = ref [] in
     let ms = ref [empty_world] and cs = ref [] in
     let direct = ref None and hasher = ref None in
-    let hits = ref 0 in
+    let hits = ref 0 and dirs = ref [] in
     let edit e = w := apply_edit !w e; ms := !w :: !ms; "." in
     let out = List.map (fun tok ->
       match split_on ':' tok with
@@ -96,6 +98,14 @@ let () = iter_lines (fun line ->
           let before = !w in
           ignore (edit (ECreate (nf p, (dev, nf ino), bf b, zf mt)));
           if !w == before then "i!" else "i" ^ ino
+        end
+      | ["m"; p; mt; ino; len] ->
+        if ino = "-" then "i-"
+        else begin
+          let before = !w in
+          ignore (edit (ECreate (nf p, (dev, nf ino), List.init (ios len) (fun _ -> N0), zf mt)));
+          dirs := nf p :: !dirs;
+          if !w == before then "i!" else "i" ^ ino ^ "," ^ len
         end
       | ["w"; p; b; mt] -> edit (EWrite (nf p, bf b, zf mt))
       | ["a"; p; b; mt] -> edit (EAppend (nf p, bf b, zf mt))
@@ -132,7 +142,7 @@ let () = iter_lines (fun line ->
          | None -> "EXN no hasher"
          | Some (a, tr) ->
            if (k = "H") <> (tr = None) then "EXN call does not fit the hasher" else
-           let cl = { c_path = nf p; c_pos = nf pos; c_len = nf len; c_fail = false } in
+           let cl = { c_path = nf p; c_pos = nf pos; c_len = nf len; c_io = (if List.mem (nf p) !dirs then IoReadFails else IoOk) } in
            let (r, c') = hash_cached model_H model_T a tr !c !w cl in
            (match r with (RHash _ | RTHash _) when c' == !c -> incr hits | _ -> ());
            c := c';
